@@ -797,3 +797,40 @@ func lemmaC01_fopts_commands(devAddr DevAddr, fcnt uint32, ans LinkADRAnsPayload
 		verifAssert(*pl == ans, "cmd1-payload-equal")
 	}
 }
+
+// CFList of the channel-mask kind (join-accept for fixed channel plans): five arbitrary masks, the
+// last one not all-zero (trailing all-zero masks are indistinguishable from the zero padding).
+func lemmaC01_cflist_chmask(m0, m1, m2, m3, m4 ChMask) {
+	var zero ChMask
+	if m4 == zero {
+		return
+	}
+	l := CFList{CFListType: CFListChannelMask, Payload: &CFListChannelMaskPayload{ChannelMasks: []ChMask{m0, m1, m2, m3, m4}}}
+	b, err := l.MarshalBinary()
+	verifAssert(err == nil, "encodes")
+	if err != nil {
+		return
+	}
+	verifAssert(len(b) == 16, "length")
+	var w CFList
+	err2 := w.UnmarshalBinary(b)
+	verifAssert(err2 == nil, "decodes")
+	if err2 != nil {
+		return
+	}
+	verifAssert(w.CFListType == CFListChannelMask, "type")
+	cp, ok := w.Payload.(*CFListChannelMaskPayload)
+	verifAssert(ok, "payload-type")
+	if !ok {
+		return
+	}
+	verifAssert(len(cp.ChannelMasks) == 5, "five-masks")
+	if len(cp.ChannelMasks) != 5 {
+		return
+	}
+	verifAssert(cp.ChannelMasks[0] == m0, "mask0")
+	verifAssert(cp.ChannelMasks[1] == m1, "mask1")
+	verifAssert(cp.ChannelMasks[2] == m2, "mask2")
+	verifAssert(cp.ChannelMasks[3] == m3, "mask3")
+	verifAssert(cp.ChannelMasks[4] == m4, "mask4")
+}
